@@ -19,6 +19,7 @@ if [[ "$WANT" == *" su "* ]]; then
   go build -tags verif -overlay "$B/overlay-su.json" -ldflags "-X main.version=2.0.0" -o "$B/crs-su-2.0.0" .
   go build -tags verif -overlay "$B/overlay-su.json" -o "$B/crs-su-dev" .
   go build -tags verif -overlay "$B/overlay-su.json" -ldflags "-X main.version=v2.5.0-rc.1" -o "$B/crs-su-2.5.0-rc.1" .
+  go build -tags verif -overlay "$B/overlay-su.json" -ldflags "-X main.version=v10.1.0" -o "$B/crs-su-10.1.0" .
 fi
 if [[ "$WANT" == *" sched "* ]]; then
   "$VERIF_ROOT/bin/build-sched.sh"
